@@ -280,6 +280,17 @@ pub fn par_map<T: Sync, R: Send>(cases: &[T], threads: usize, f: impl Fn(usize, 
     out.into_inner().unwrap().into_iter().map(|o| o.expect("worker died")).collect()
 }
 
+/// path of this binary for worker subprocesses (the check script exports it: /proc/self/exe is
+/// useless once the file has been replaced by a rebuild)
+pub fn self_exe() -> Result<PathBuf, String> {
+    if let Ok(p) = std::env::var("ZKV_SELF") {
+        if std::path::Path::new(&p).exists() {
+            return Ok(PathBuf::from(p));
+        }
+    }
+    std::env::current_exe().map_err(|e| e.to_string())
+}
+
 pub fn ncpu() -> usize {
     if let Some(n) = std::env::var("ZKV_THREADS").ok().and_then(|s| s.parse::<usize>().ok()) {
         return n.max(1);
